@@ -80,6 +80,8 @@ def in_guard(name):
         return False
     if len(parts) > 1 and parts[0].lower() == "inbox" and parts[0] != "inbox":
         return False
+    if len(parts) > 1 and any(p.isdigit() for p in parts):
+        return False   # known finding: MH takes a/12 for message 12 of a
     return True
 
 
@@ -196,7 +198,16 @@ class Driver:
         self.error = None
 
     def close(self):
-        self.w.close()
+        # the history is over: no orderly shutdown (it commits every mailbox once more), just
+        # close the database, cancel what is left and remove the directory
+        w = self.w
+        try:
+            if w.server is not None:
+                w.run(w.server.db.close())
+                w.server = None
+        except Exception:
+            pass
+        w.close()
 
     # ---- raw observations
     def table(self):
@@ -580,7 +591,7 @@ def model_at(ctx, h, k):
 
 
 def history_level(ctx):
-    n = 260 if ctx.thorough else 26
+    n = 300 if ctx.thorough else 16
     nops = 40 if ctx.thorough else 30
     nprobes = 30 if ctx.thorough else 12
     hs = []
